@@ -1,4 +1,5 @@
 import Unsized.MachineAtomicSeq
+import Unsized.MachineUlistAtomic
 /-!
 # Atomicity and canonical-on-error for all covered node kinds (`node_atomic2`, `node_err_canonical`)
 — wires `MachineAtomicSeq.lean` (set / map, by b-proof-map) into the coverage of `MachineAtomic.lean`
@@ -10,6 +11,7 @@ open Common Unsized Unsized.Text
 def atomicShape2 : Shape → Bool
   | .set _ _ => true
   | .map _ _ _ => true
+  | .ulist _ => true
   | t => atomicShape t
 
 /-- The (node kind, op) pairs covered by `node_atomic2` / `node_err_canonical`. -/
@@ -18,6 +20,7 @@ def SupportedA2 (t : Shape) (op : Op) : Bool := atomicShape2 t || genericOp op
 /-- `node_atomic` extended to `Set` and `Map` nodes. -/
 theorem node_atomic2 {s v p t u m} (F : Focus s v p t u m) (sm : Small m) (op : Op)
     (hsup : SupportedA2 t op = true) (hnc : composite op = false) (m' : Mem) (e : Err)
+    (hne : e ≠ .initFail)
     (h : applyAt ⟨s, p⟩ t (offsetOf s v p) op m = (m', .error e)) :
     m'.bytes = m.bytes ∧ m'.orig = m.orig ∧ m'.refuse = m.refuse := by
   by_cases hg : genericOp op = true
@@ -28,12 +31,15 @@ theorem node_atomic2 {s v p t u m} (F : Focus s v p t u m) (sm : Small m) (op : 
     cases t <;> first
       | exact node_atomic F sm op (by simpa [SupportedA, atomicShape2, hg'] using hsup) hnc m' e h
       | (cases u <;> simp only [valid, Bool.false_eq_true] at hv
-         first | exact set_atomic F sm op hg' hnc m' e h | exact map_atomic F sm op hg' hnc m' e h)
+         first
+           | exact set_atomic F sm op hg' hnc m' e h
+           | exact map_atomic F sm op hg' hnc m' e h
+           | exact ulist_atomic F sm op hg' m' e hne h)
 
 /-- **Every covered op, composite or not, under any refusal schedule**: on an error the buffer is the
 canonical serialization of SOME well-formed value at the node (for single-container ops: the old one). -/
 theorem node_err_canonical {s v p t u m} (F : Focus s v p t u m) (sm : Small m) (op : Op)
-    (hsup : SupportedA2 t op = true) (m' : Mem) (e : Err)
+    (hsup : SupportedA2 t op = true) (m' : Mem) (e : Err) (hne : e ≠ .initFail)
     (h : applyAt ⟨s, p⟩ t (offsetOf s v p) op m = (m', .error e)) :
     ∃ u', Focus s (subst s v p u') p t u' m' ∧ m'.orig = m.orig ∧ m'.refuse = m.refuse := by
   have same : ∀ {m'' : Mem}, m''.bytes = m.bytes → m''.orig = m.orig → m''.refuse = m.refuse →
@@ -41,7 +47,7 @@ theorem node_err_canonical {s v p t u m} (F : Focus s v p t u m) (sm : Small m) 
     intro m'' hb ho hr
     exact ⟨u, Focus.congr F.same m'' hb, ho, hr⟩
   by_cases hnc : composite op = false
-  · obtain ⟨hb, ho, hr⟩ := node_atomic2 F sm op hsup hnc m' e h
+  · obtain ⟨hb, ho, hr⟩ := node_atomic2 F sm op hsup hnc m' e hne h
     exact same hb ho hr
   · have hv := F.sub.valid
     have bad : ∀ {m'' : Mem} {e' : Err}, (m, (Except.error e' : Except Err Ret)) = (m'', .error e) →
@@ -81,7 +87,7 @@ theorem node_err_canonical {s v p t u m} (F : Focus s v p t u m) (sm : Small m) 
 theorem applyOp_atomic2 (s : Shape) (v : Val) (g : Good s v) (m : Mem) (hm : m.bytes = encode s v)
     (sm : Small m) (p : List Step) (op : Op)
     (hsup : ∀ t u, resolve s v p = .ok (t, u) → SupportedA2 t op = true) (hnc : composite op = false)
-    (m' : Mem) (e : Err) (h : applyOp s p op m = (m', .error e)) :
+    (m' : Mem) (e : Err) (hne : e ≠ .initFail) (h : applyOp s p op m = (m', .error e)) :
     m'.bytes = m.bytes ∧ m'.orig = m.orig ∧ m'.refuse = m.refuse := by
   have hloc := locate_encode p s v g [] [] 0 rfl
   simp only [List.nil_append, List.append_nil, Nat.zero_add] at hloc
@@ -93,14 +99,14 @@ theorem applyOp_atomic2 (s : Shape) (v : Val) (g : Good s v) (m : Mem) (hm : m.b
     obtain ⟨t, u⟩ := tu
     rw [hr] at h
     simp only [] at h
-    exact node_atomic2 ⟨g, hr, hm⟩ sm op (hsup t u hr) hnc m' e h
+    exact node_atomic2 ⟨g, hr, hm⟩ sm op (hsup t u hr) hnc m' e hne h
 
 /-- Whole-value "no corruption": after an error the buffer is the canonical serialization of some
 well-formed value of the type, for every covered op and every refusal schedule. -/
 theorem applyOp_err_canonical (s : Shape) (v : Val) (g : Good s v) (m : Mem) (hm : m.bytes = encode s v)
     (sm : Small m) (p : List Step) (op : Op)
     (hsup : ∀ t u, resolve s v p = .ok (t, u) → SupportedA2 t op = true)
-    (m' : Mem) (e : Err) (h : applyOp s p op m = (m', .error e)) :
+    (m' : Mem) (e : Err) (hne : e ≠ .initFail) (h : applyOp s p op m = (m', .error e)) :
     ∃ v', Good s v' ∧ m'.bytes = encode s v' ∧ m'.orig = m.orig ∧ m'.refuse = m.refuse := by
   have hloc := locate_encode p s v g [] [] 0 rfl
   simp only [List.nil_append, List.append_nil, Nat.zero_add] at hloc
@@ -112,7 +118,7 @@ theorem applyOp_err_canonical (s : Shape) (v : Val) (g : Good s v) (m : Mem) (hm
     obtain ⟨t, u⟩ := tu
     rw [hr] at h
     simp only [] at h
-    obtain ⟨u', F', ho, hrf⟩ := node_err_canonical ⟨g, hr, hm⟩ sm op (hsup t u hr) m' e h
+    obtain ⟨u', F', ho, hrf⟩ := node_err_canonical ⟨g, hr, hm⟩ sm op (hsup t u hr) m' e hne h
     exact ⟨_, F'.good, F'.bytes, ho, hrf⟩
 
 end Unsized.Machine
